@@ -295,6 +295,68 @@ func boundaryPlans() []seqPlan {
 		}
 	}
 	out = append(out, bigTTLPlans()...)
+	out = append(out, optionPlans()...)
+	return out
+}
+
+// optionPlans crosses the option shapes of CacheOptions: MaxTTL negative / 0 / 1 /
+// around the int64 limits, CleanupInterval negative / 0 / 1ns / MaxInt64,
+// InitialSize negative / 0 / 1 / large. Reference: MaxTTL <= 0 is no cap,
+// CleanupInterval <= 0 is the default of 150 s, InitialSize is only a hint.
+func optionPlans() []seqPlan {
+	var out []seqPlan
+	n := 0
+	for _, maxTTL := range []int64{-1, -30, math.MinInt64, 0, 1, maxDurSec, math.MaxInt64} {
+		for _, interval := range []time.Duration{-sec, math.MinInt64, 0, 1, math.MaxInt64} {
+			for _, initSize := range []int32{math.MinInt32, -1, 0, 1, 1 << 15} {
+				n++
+				b := newBuilder(maxTTL)
+				b.set("a", 5)
+				b.get("a") // right after Set
+				b.cleanup()
+				b.get("a")
+				b.set("", 1<<40)
+				b.get("")
+				switch {
+				case interval == 1:
+					// a tick every nanosecond: only a few of them
+					b.adv(1)
+					b.get("a")
+					b.adv(3)
+					b.cleanup()
+					b.get("a")
+					b.get("")
+				case interval <= 0:
+					// the default interval: step up to, onto and over the tick at 150 s
+					b.set("c", 400)
+					b.adv(149 * sec)
+					b.get("c")
+					b.get("a")
+					b.adv(sec)
+					b.get("c")
+					b.get("")
+					b.adv(sec)
+					b.cleanup()
+					b.get("c")
+					b.advTo("c", -1)
+					b.get("c")
+					b.advTo("c", 0)
+					b.get("c")
+				default:
+					b.adv(sec)
+					b.get("a")
+					b.advTo("a", -1)
+					b.get("a")
+					b.cleanup()
+					b.advTo("a", 0)
+					b.get("a")
+					b.get("")
+				}
+				out = append(out, seqPlan{mode: "boundary", name: fmt.Sprintf("options/%d", n), maxTTL: maxTTL, interval: interval, initSize: initSize,
+					keys: []string{"a", "", "c"}, vtype: []string{"string", "int", "ptr"}[n%3], ops: b.ops})
+			}
+		}
+	}
 	return out
 }
 
@@ -364,15 +426,23 @@ var advOffs = []time.Duration{-1, -1, 0, 0, 1, -time.Millisecond, 500 * time.Mil
 
 func genSeq(rng *mon.RNG, mode string) seqPlan {
 	pl := seqPlan{mode: mode, name: "random", interval: farInterval}
-	pl.maxTTL = int64(rng.PickInt(0, 0, 2, 3, 5))
-	pl.initSize = int32(rng.PickInt(0, 0, 1, 2, 16))
+	pl.maxTTL = int64(rng.PickInt(0, 0, 2, 3, 5, 2, 3, 5, 1, -1, -30, math.MinInt64))
+	pl.initSize = int32(rng.PickInt(0, 0, 1, 2, 16, 0, 1, 16, -1, math.MinInt32, 1<<15))
+	if mode == "seq" && rng.Chance(1, 8) {
+		// <= 0 selects the default of 150 s (far beyond these histories' few seconds unless aimed at); MaxInt64 never ticks
+		pl.interval = time.Duration(rng.PickInt(0, -int(sec), math.MaxInt64))
+	}
 	pl.keys = []string{"", "a", "b", "c", "d", "e", "f", "g"}[:rng.Range(2, 8)]
 	pl.vtype = rng.PickStr("string", "string", "int", "ptr")
 	grid := advGrid
 	if mode == "seqtick" {
-		pl.interval = []time.Duration{500 * time.Millisecond, sec, 2 * sec, 1500 * time.Millisecond}[rng.Intn(4)]
+		pl.interval = []time.Duration{500 * time.Millisecond, sec, 2 * sec, 1500 * time.Millisecond, 500 * time.Millisecond, sec, 0, -5 * sec}[rng.Intn(8)]
 		// stay on a coarse grid so that ticks land on operation instants
 		grid = []time.Duration{500 * time.Millisecond, 500 * time.Millisecond, sec, sec, 1500 * time.Millisecond, 2 * sec, 1, 250 * time.Millisecond}
+	}
+	if mode == "seqtick" && pl.interval <= 0 {
+		// default interval: step in units that reach and land on the 150 s tick
+		grid = []time.Duration{50 * sec, 50 * sec, 100 * sec, 150 * sec, sec, 1}
 	}
 	n := rng.Range(8, 40)
 	b := newBuilder(pl.maxTTL)
@@ -478,7 +548,9 @@ func runSeqV[V comparable](t *testing.T, idx int, pl seqPlan, enc func(n int) V)
 	res := mon.Bubble(t, func() {
 		start := time.Now()
 		c := ttlcache.NewCache[V](ttlcache.CacheOptions{InitialSize: pl.initSize, CleanupInterval: pl.interval, MaxTTL: pl.maxTTL})
-		ticking := pl.interval < farInterval
+		iv := effInterval(pl.interval)
+		ticking := iv < farInterval
+		countOptionShapes(pl.maxTTL, pl.interval, pl.initSize)
 		synctest.Wait()
 		md := newModel(pl.maxTTL)
 		valKey := map[string]string{}
@@ -553,6 +625,10 @@ func runSeqV[V comparable](t *testing.T, idx int, pl seqPlan, enc func(n int) V)
 				if e.exp-md.now == 1 {
 					shape += "/1ns-before-expiry"
 				}
+				if pl.maxTTL < 0 {
+					// a negative MaxTTL is "not greater than 0": it must not act as a cap
+					shape += "/negative-maxttl"
+				}
 				if e.beyond {
 					// effective TTL above 9223372036 s: not representable as a time.Duration, must be
 					// clamped (about 292 years), never wrapped - the clock cannot get there, so: a hit
@@ -564,6 +640,13 @@ func runSeqV[V comparable](t *testing.T, idx int, pl seqPlan, enc func(n int) V)
 				rec.Count("seq.get.hit", 1)
 				if got == "v1" {
 					rec.Count("seq.zero_value.hits_"+pl.vtype, 1)
+				}
+				if pl.maxTTL < 0 {
+					// a negative MaxTTL is "not greater than 0": no cap
+					rec.Count("options.maxttl_negative.hits", 1)
+					if sc := sinceSet[key]; sc != nil && sc.withExpired+sc.nothingExpired+sc.ticks > 0 {
+						rec.Count("options.maxttl_negative.hits_after_cleanup", 1)
+					}
 				}
 				if e.ttl > maxDurSec {
 					// a TTL whose nanoseconds do not fit an int64, capped by MaxTTL
@@ -748,13 +831,19 @@ func runSeqV[V comparable](t *testing.T, idx int, pl seqPlan, enc func(n int) V)
 				if ticking {
 					// let the periodic Cleanup of every tick in (from, now] finish
 					synctest.Wait()
-					if k := int64(md.now/pl.interval) - int64(from/pl.interval); k > 0 {
+					if k := int64(md.now/iv) - int64(from/iv); k > 0 {
+						if pl.interval <= 0 {
+							rec.Count("options.cleanup_interval_nonpositive.default_tick_at_150s_crossed", int(k))
+						}
+						if pl.interval == 1 {
+							rec.Count("options.cleanup_interval_1ns.ticks", int(k))
+						}
 						rec.Count("seqtick.ticks", int(k))
 						for _, sc := range sinceSet {
 							sc.ticks++
 						}
 						lastOp = "tick"
-						if md.now%pl.interval == 0 {
+						if md.now%iv == 0 {
 							rec.Count("seqtick.ticks_at_op_instants", 1)
 						}
 					}
